@@ -9,6 +9,10 @@
 // obstacles - or (Owner == "other") to the OTHER registered client, whose credentials the request does not carry, so that
 // honouring it would be acting for a client that has not authenticated. The optional parameters of each grant (Opts) are
 // generated, too: they select the path through the handler, never who is authenticated or which registration is needed.
+// Two further dimensions leave the credential alone and change what surrounds the request: the life of the request's context and
+// failures of the storage calls that decide the authentication (ctx_test.go: a refusal stays a non-2xx OAuth error document
+// whatever happens to the context), and providers that derive their issuer from the request and serve several hosts
+// (multi_test.go: an assertion is valid only for the issuer of the request it is presented on).
 // The oracle (authClass / judge below) is a function of the case alone, written from the statement; it never calls the library.
 package c05
 
@@ -75,7 +79,7 @@ type Case struct {
 	GrantAssertion string `json:"grant_assertion,omitempty"` // jwt-bearer grant: right | wrongkey | unknownkid | otheriss | expired | wrongaud | ghost
 	TokenKind      string `json:"token_kind,omitempty"`      // revocation: access | refresh
 	Hint           string `json:"hint,omitempty"`            // revocation: token_type_hint
-	Fault          string `json:"fault,omitempty"`           // storage fault during the request: client-lookup | secret-check | key-lookup (+ ":partial")
+	Fault          string `json:"fault,omitempty"`           // storage fault during the request: client-lookup | secret-check | key-lookup | cc-check, + ":" + kind (see faultKinds / ctxKinds in ctx_test.go)
 	// Owner: whose grant material (code / refresh token / device code / token to introspect or revoke) the request carries:
 	// "" = the client the credentials name | other = the OTHER registered client (whose credentials the request never carries)
 	Owner string `json:"owner,omitempty"`
@@ -88,6 +92,10 @@ type Case struct {
 	Opts *Opts `json:"opts,omitempty"`
 	// Hist: what happened in the process before this request (see history_test.go); nil = a fresh provider sees this one request
 	Hist *History `json:"hist,omitempty"`
+	// Multi: the provider derives its issuer from the request (several issuers on one instance; see multi_test.go); nil = static issuer
+	Multi *Multi `json:"multi,omitempty"`
+	// Ctx: the request arrives with a context that is already done: "" = live | cancelled | expired (see ctx_test.go)
+	Ctx string `json:"ctx,omitempty"`
 }
 
 // Opts are the optional request parameters of a grant: none of them may change who is authenticated or which grant
@@ -201,6 +209,7 @@ func genCase0(t *rapid.T) Case {
 		// the subject check only matters to clients that authenticate with assertions
 		r.AuthMethod = mPKJWT
 	}
+	genMulti(t, &c)
 	confidential := r.AuthMethod != mNone
 	if rapid.IntRange(0, 3).Draw(t, "app.consistent") > 0 {
 		if confidential {
@@ -235,6 +244,10 @@ func genCase0(t *rapid.T) Case {
 		if c.Grant == vkit.GBearer {
 			c.GrantAssertion = rapid.SampledFrom(grantAssertions).Draw(t, "grant.assertion")
 		}
+		if c.Grant == vkit.GCC && !has(r.Grants, vkit.GCC) && rapid.Bool().Draw(t, "service.cc") {
+			// a service account that is not registered for the grant: the grant registration is the only obstacle
+			r.Service = true
+		}
 	}
 	if pr := rapid.IntRange(0, 9).Draw(t, "pres.right"); pr < 4 {
 		c.Pres = rightPres(r.AuthMethod)
@@ -263,6 +276,8 @@ func genCase0(t *rapid.T) Case {
 	if rapid.IntRange(0, 9).Draw(t, "fault.on") == 0 {
 		c.Fault = rapid.SampledFrom([]string{"client-lookup", "secret-check", "key-lookup", "client-lookup:partial", "key-lookup:partial"}).Draw(t, "fault")
 	}
+	genCtx(t, &c)
+	genAud(t, &c)
 	return c
 }
 
@@ -317,7 +332,7 @@ func genForeign(t *rapid.T, c *Case) {
 }
 
 var (
-	scopeOpts   = []string{"-", "-", "openid", "profile", "openid profile", "openid email", "openid offline_access", vkit.CustomScope}
+	scopeOpts   = []string{"-", "-", "-", "-", "openid", "profile", "openid profile", "openid email", "openid offline_access", vkit.CustomScope}
 	audienceSet = []string{"https://api.example.com", otherID, "urn:svc:a"}
 )
 
@@ -325,16 +340,21 @@ var (
 func genOpts(t *rapid.T, c *Case) {
 	te := c.Endpoint == "token" && c.Grant == vkit.GTE
 	// every second case; token exchange, whose handler branches on almost every optional parameter: four in five
+	// client_credentials and device authorization, whose only optional parameter is the scope (absent in two of five of these): two in three
+	scopeOnly := c.Endpoint == "device_authorization" || (c.Endpoint == "token" && c.Grant == vkit.GCC)
 	off := 5
-	if te {
+	switch {
+	case te:
 		off = 2
+	case scopeOnly:
+		off = 3
 	}
 	if rapid.IntRange(0, 9).Draw(t, "opts.on") < off {
 		return
 	}
 	o := &Opts{}
 	scoped := c.Endpoint == "device_authorization" || (c.Endpoint == "token" && (c.Grant == vkit.GRefr || c.Grant == vkit.GCC || c.Grant == vkit.GBearer || c.Grant == vkit.GTE || c.Grant == vkit.GCode || c.Grant == vkit.GDevice))
-	if scoped && rapid.Bool().Draw(t, "opts.scope.on") {
+	if scoped && (scopeOnly || rapid.Bool().Draw(t, "opts.scope.on")) {
 		o.Scope = rapid.SampledFrom(scopeOpts).Draw(t, "opts.scope")
 	}
 	if te {
@@ -489,12 +509,17 @@ func authClass0(c Case) authVerdict {
 			return authVerdict{clsGrey, "assertion-for-public-client"}
 		case !r.HasKeys:
 			return authVerdict{clsBad, "assertion-without-registered-key"}
+		case c.audStanding() == clsBad:
+			// addressed to another issuer (another host of this provider): not "a valid private_key_jwt assertion" HERE
+			return authVerdict{clsBad, "bad-assertion:" + audOtherHost}
 		case p == "assert-badtype":
 			return authVerdict{clsGrey, "wrong-assertion-type"}
 		case !c.Flags.PKJWT:
 			return authVerdict{clsGrey, "pkjwt-disabled"}
 		case delegated(p):
 			return authVerdict{clsGrey, "delegated-assertion-lax-subject-check"}
+		case c.audStanding() == clsGrey:
+			return authVerdict{clsGrey, "audience-near-miss"}
 		}
 		return authVerdict{clsOK, "assertion"}
 	case strings.HasPrefix(p, "assert-"):
@@ -626,6 +651,8 @@ func judgeCaller(c Case) verdict {
 			switch {
 			case c.GrantAssertion != "right":
 				refuse = append(refuse, "bad-grant-assertion:"+c.GrantAssertion)
+			case c.audStanding() == clsBad:
+				refuse = append(refuse, "bad-grant-assertion:"+audOtherHost)
 			case r.Absent:
 				refuse = append(refuse, "unknown-client")
 			case !r.HasKeys:
@@ -633,6 +660,9 @@ func judgeCaller(c Case) verdict {
 			default:
 				if !has(r.Grants, vkit.GBearer) {
 					grey = append(grey, "assertion-issuer-not-modelled-as-client")
+				}
+				if c.audStanding() == clsGrey {
+					grey = append(grey, "audience-near-miss")
 				}
 				if !(a.cls == clsOK || c.Pres == "nothing" || c.Pres == "none") {
 					grey = append(grey, "client-credentials-next-to-assertion-grant")
@@ -714,6 +744,10 @@ func judgeCaller(c Case) verdict {
 	if c.Fault != "" {
 		grey = append(grey, "storage-fault-planned")
 	}
+	if c.Ctx != "" {
+		// nobody may be waiting for the answer: completeness is not asserted; a refusal stays a refusal
+		grey = append(grey, "request-context-dead")
+	}
 	if g := optsGrey(c); g != "" {
 		grey = append(grey, "optional-parameter:"+g)
 	}
@@ -738,7 +772,7 @@ func assertion(iss, sub, aud, kid, key string, iat, exp time.Time) string {
 }
 
 // mkAssertion: an assertion of kind for the named client n (o = the other registered client).
-func mkAssertion(kind string, n, o party, now time.Time) string {
+func mkAssertion(kind string, n, o party, now time.Time, issuer string) string {
 	iat, exp := now.Add(-5*time.Second), now.Add(5*time.Minute)
 	switch kind {
 	case "wrongkey":
@@ -766,7 +800,7 @@ func mkAssertion(kind string, n, o party, now time.Time) string {
 }
 
 // idToken: an ID token of this provider for user u1 and the given client, signed with the provider's signing key (sig1).
-func idToken(clientID string, now time.Time) string {
+func idToken(clientID string, now time.Time, issuer string) string {
 	return vkit.AssertionWith(issuer, "u1", []string{clientID}, "sig1", "rsa1", now.Add(-5*time.Second), now.Add(5*time.Minute),
 		map[string]any{"auth_time": now.Add(-10 * time.Second).Unix(), "azp": clientID})
 }
@@ -774,6 +808,7 @@ func idToken(clientID string, now time.Time) string {
 // applyCred adds the presentation to form / header. n is the client the request names as a caller who knows the registration
 // in force sees it (n.secret = the secret in force or, when none is stored, what the caller believes it to be), o the other client.
 func applyCred(c Case, n, o party, form url.Values, hdr http.Header, now time.Time) {
+	aud := c.audience()
 	var cr vkit.Cred
 	switch c.Pres {
 	case "nothing":
@@ -810,11 +845,11 @@ func applyCred(c Case, n, o party, form url.Values, hdr http.Header, now time.Ti
 	case "ghost-post":
 		cr = vkit.Cred{Kind: "post", ClientID: ghostID, Secret: n.secret}
 	case "ghost-assert":
-		cr = vkit.Cred{Kind: "assertion", Assertion: mkAssertion("ghost", n, o, now)}
+		cr = vkit.Cred{Kind: "assertion", Assertion: mkAssertion("ghost", n, o, now, aud)}
 	case "assert-badtype":
-		cr = vkit.Cred{Kind: "assertion", Assertion: mkAssertion("right", n, o, now)}
+		cr = vkit.Cred{Kind: "assertion", Assertion: mkAssertion("right", n, o, now, aud)}
 	default:
-		cr = vkit.Cred{Kind: "assertion", Assertion: mkAssertion(strings.TrimPrefix(c.Pres, "assert-"), n, o, now)}
+		cr = vkit.Cred{Kind: "assertion", Assertion: mkAssertion(strings.TrimPrefix(c.Pres, "assert-"), n, o, now, aud)}
 	}
 	if c.RiderIn == "" {
 		switch c.BodyID {
@@ -889,8 +924,9 @@ type request struct {
 }
 
 type outcome struct {
-	served bool
-	v      int
+	served     bool
+	v          int
+	faultFired bool
 }
 
 func run(c Case) (res *vkit.Result) {
@@ -928,12 +964,12 @@ func run(c Case) (res *vkit.Result) {
 			rq := request{site: on, n: c.party(s.Who, on.alt), o: c.party(other, on.alt),
 				prefix: fmt.Sprintf("(prelude request %d of %d, on %s, naming client %s) ", i+1, len(h.Prelude), where, s.Who),
 				c: Case{ErrStyle: c.ErrStyle, Router: on.router, Flags: c.Flags, Reg: c.regAt(s.Who, onSecond, false), Z: &oreg, Endpoint: s.Endpoint, Grant: s.Grant,
-					Pres: s.Pres, ParamsIn: "body", GrantAssertion: s.GrantAssertion, TokenKind: s.TokenKind}}
+					Pres: s.Pres, ParamsIn: "body", GrantAssertion: s.GrantAssertion, TokenKind: s.TokenKind, Multi: c.stepMulti(s), Fault: s.Fault}}
 			o := rq.do(res)
 			if o == nil {
 				return res
 			}
-			log = append(log, stepOutcome{s, o.served, o.v})
+			log = append(log, stepOutcome{s, o.served, o.v, o.faultFired})
 		}
 	}
 	tc := c
@@ -965,6 +1001,8 @@ func (rq *request) do(res *vkit.Result) *outcome {
 	rq.site.n++
 	t0 := time.Now()
 	ctx := context.Background()
+	// every request of this case step - also those that fetch its grant material - arrives on the host the step names
+	ag.Host, ag.Forwarded = c.hostHeaders()
 	v := judge(c)
 	w := where(c)
 	label := func(l ...string) {
@@ -1049,7 +1087,7 @@ func (rq *request) do(res *vkit.Result) *outcome {
 		case vkit.GCC:
 			form.Set("scope", "openid")
 		case vkit.GBearer:
-			form.Set("assertion", mkAssertion(c.GrantAssertion, x, z, now))
+			form.Set("assertion", mkAssertion(c.GrantAssertion, x, z, now, c.audience()))
 			form.Set("scope", "openid")
 		case vkit.GTE:
 			switch opts.SubjType {
@@ -1057,7 +1095,7 @@ func (rq *request) do(res *vkit.Result) *outcome {
 				form.Set("subject_token", m.access)
 				form.Set("subject_token_type", string(oidc.AccessTokenType))
 			case "id":
-				form.Set("subject_token", idToken(owner.id, now))
+				form.Set("subject_token", idToken(owner.id, now, c.ownIssuer()))
 				form.Set("subject_token_type", string(oidc.IDTokenType))
 			default:
 				form.Set("subject_token", m.refresh)
@@ -1163,36 +1201,30 @@ func (rq *request) do(res *vkit.Result) *outcome {
 	for dc := range st.Devices {
 		devicesBefore[dc] = true
 	}
-	if c.Fault != "" {
-		f := vkit.Fault{Kind: "error"}
-		name := c.Fault
-		if strings.HasSuffix(name, ":partial") {
-			f.Kind, name = "partial", strings.TrimSuffix(name, ":partial")
-		}
-		switch name {
-		case "client-lookup":
-			f.Method = "GetClientByClientID"
-		case "secret-check":
-			f.Method = "AuthorizeClientIDSecret"
-		case "key-lookup":
-			f.Method = "GetKeyByIDAndClientID"
-		}
-		st.SetFaults(f)
+	// the request's context: live for the whole request, dead on arrival (Ctx), or dying inside the storage call the fault names
+	reqCtx, release := rq.site.arm(c)
+	if fm, fk := faultOf(c.Fault); fm != "" && !isCtxKind(fk) {
+		st.SetFaults(vkit.Fault{Method: fm, Kind: fk})
 	}
 	var resp *vkit.Resp
 	if c.ParamsIn == "get" {
-		resp = ag.Get(path, form, hdr)
+		resp = rq.site.send("GET", path, form, hdr, reqCtx)
 	} else {
-		resp = ag.Post(target, form, hdr)
+		resp = rq.site.send("POST", target, form, hdr, reqCtx)
 	}
 	st.SetFaults()
+	ctxDied, ctxFailedCall := release()
 	elapsed := time.Since(t0)
 
-	faultFired := false
+	faultFired := ctxFailedCall
 	for _, e := range st.CallsOf(resp.Req) {
 		if e.Fault {
 			faultFired = true
 		}
+	}
+	if ctxDied && !faultFired && v.V > 0 {
+		// the context died while a storage that is not context-aware answered as usual: completeness is not asserted
+		v.V, v.Reasons = 0, []string{"request-context-died-during-storage-call"}
 	}
 	if faultFired {
 		// the endpoint could not look the client / its secret / its key up: it has not authenticated anybody
@@ -1248,6 +1280,15 @@ func (rq *request) do(res *vkit.Result) *outcome {
 		rider := c.BodyID
 		if c.RiderIn != "" {
 			rider += " in the " + c.RiderIn
+		}
+		if c.Multi != nil {
+			extra += fmt.Sprintf("; issuer from the request (%s): arrives on host %q = issuer %q, its assertions are addressed to %q", c.Multi.Mode, hostNames[c.Multi.Host], c.ownIssuer(), c.audience())
+		}
+		if c.Ctx != "" {
+			extra += "; the request's context is already done on arrival (" + c.Ctx + ")"
+		}
+		if c.Fault != "" {
+			extra += "; fault " + c.Fault
 		}
 		return fmt.Sprintf("%s%s %s by %s presenting %q (riding client_id %q, params %s, flags %+v%s): %s",
 			rq.prefix, c.Router, w, reg, c.Pres, rider, c.ParamsIn, c.Flags, extra, resp.Describe())
@@ -1348,7 +1389,7 @@ func (rq *request) do(res *vkit.Result) *outcome {
 		}
 		label("grey", "grey:"+v.Reasons[0])
 	}
-	out := &outcome{served: resp.Success(), v: v.V}
+	out := &outcome{served: resp.Success(), v: v.V, faultFired: faultFired}
 	if !rq.final {
 		return out
 	}
@@ -1400,10 +1441,36 @@ func (rq *request) do(res *vkit.Result) *outcome {
 		res.Label("params:" + c.ParamsIn)
 	}
 	if c.Fault != "" {
-		if faultFired {
-			res.Label("fault-fired:" + c.Fault)
-		} else {
+		_, fk := faultOf(c.Fault)
+		switch {
+		case faultFired:
+			res.Label("fault-fired:"+c.Fault, "fault-fired@"+w, "fault-kind:"+fk)
+		case ctxDied && c.Ctx == "":
+			res.Label("ctx-died-in-call-storage-answered:"+c.Fault, "fault-kind:"+fk)
+		default:
 			res.Label("fault-idle")
+		}
+		if isCtxKind(fk) && (faultFired || ctxDied) {
+			res.Label("ctx-died-in-call@"+w, "ctx-died-in-call:"+c.Router+":verdict="+fmt.Sprint(judge(c).V))
+		}
+	}
+	if c.Ctx != "" {
+		res.Label("ctx-dead-on-arrival:"+c.Ctx, "ctx-dead-on-arrival@"+w, "ctx-dead-on-arrival:"+c.Router+":verdict="+fmt.Sprint(v.V))
+	}
+	if m := c.Multi; m != nil {
+		res.Label("multi", "multi:mode:"+m.Mode, "multi:host:"+hostKey(m.Host))
+		if m.Path != "" {
+			res.Label("multi:issuer-with-path")
+		}
+		if usesAssertion(c.Pres, c.Grant) {
+			switch c.audStanding() {
+			case clsOK:
+				res.Label("multi:aud:own-issuer:" + outcome)
+			case clsBad:
+				res.Label("multi:aud:other-host:" + outcome)
+			default:
+				res.Label("multi:aud:near-miss:"+m.Aud+":"+outcome, "multi:aud:near-miss")
+			}
 		}
 	}
 	hasMaterial := c.Endpoint != "token" || (c.Grant != "" && c.Grant != "password" && c.Grant != vkit.GImpl)
@@ -1421,6 +1488,12 @@ func (rq *request) do(res *vkit.Result) *outcome {
 	if c.Opts != nil {
 		res.Key += fmt.Sprintf("|opts=%+v", *c.Opts)
 	}
+	if c.Multi != nil {
+		res.Key += fmt.Sprintf("|multi=%+v", *c.Multi)
+	}
+	if c.Ctx != "" {
+		res.Key += "|ctx=" + c.Ctx
+	}
 	res.Info = map[string]any{"verdict": v.V, "reasons": v.Reasons, "auth": v.Auth.reason, "status": resp.Status, "error": errCode, "material": found, "acted_for": actedFor}
 	return out
 }
@@ -1433,17 +1506,25 @@ var prop = vkit.Prop[Case]{
 		"signed by the named client with sub = the other registered client / an unregistered id / empty, iss = the other client with sub = the named one / the same naming an unregistered client) " +
 		"x optional conflicting client_id form value x endpoint (token with grant_type in {6 grants, implicit, unknown, missing} / introspection / revocation / device_authorization) x parameters in body / URL / GET request " +
 		"x provider flags (post, private_key_jwt, refresh, client-credentials / token-exchange / device capability; one case in six: an application-supplied JWTProfileVerifier whose subject check lets sub != iss through, " +
-		"half of these with one of the assertions whose subject or issuer is not the signer) x optional storage fault on client / secret / key lookup x router; every request carries valid grant material owned by the named client " +
+		"half of these with one of the assertions whose subject or issuer is not the signer) x router " +
+		"x optional fault (about one case in six) at the storage call that decides the client authentication (GetClientByClientID / AuthorizeClientIDSecret / GetKeyByIDAndClientID / ClientCredentials): the call fails with a plain error, with a result next to the error, " +
+		"with an *oidc.Error (plain / wrapped), with context.Canceled / DeadlineExceeded (plain / wrapped) of a context of the storage's own, or the REQUEST's context dies inside that call (cancelled there by the harness, or a 3 ms deadline that the call outlasts) " +
+		"after which the storage answers ctx.Err() (plain / wrapped) or - not context-aware - as usual; one case in thirty arrives with a context that is already cancelled / past its deadline. Whatever happens to the context, a request that must be refused must be answered non-2xx " +
+		"(token endpoint: OAuth error document); a storage failure at such a call makes every request must-refuse; completeness is not asserted for requests whose context died. " +
+		"One case in four runs on a provider that derives its issuer from the request (op.IssuerFromHost / IssuerFromForwardedOrHost with the public host in a Forwarded header; issuer path empty or /oidc): the request under test and every prelude request arrive on one of three hosts " +
+		"(two names, one of them also with a port) of the one instance, and their client / grant assertions are addressed to the issuer of their own host (valid), to the issuer of another host of the same provider - half of the histories: of the host an earlier request arrived on - (must-refuse: " +
+		"not a valid assertion for the issuer of this request) or to a near miss of the own issuer (trailing slash, http, bare host, token endpoint URL, without the path: grey); half of these cases register the named client as private_key_jwt; " +
+		"every request carries valid grant material owned by the named client " +
 		"(live code + verifier + redirect_uri, live refresh token, approved device code, live subject token, genuine grant assertion, live token to introspect / revoke) " +
 		"- or, in a quarter of the cases with such material, owned by the OTHER registered client (generated live registration of its own or an inert confidential one), whose credentials the request does not carry, " +
 		"half of these with the other client's id riding along as the conflicting client_id; the conflicting client_id travels in the form body or in the URL query (for POST / client_id-only presentations as a second value). " +
-		"The OPTIONAL parameters of each grant are a dimension of their own: scope (absent / 6 values; one case in four) on every grant and on device authorization; token exchange requested_token_type (absent / access / refresh / id / jwt / unknown) x " +
+		"The OPTIONAL parameters of each grant are a dimension of their own: scope (absent / 6 values; one case in four, client_credentials and device authorization two in three) on every grant and on device authorization; token exchange requested_token_type (absent / access / refresh / id / jwt / unknown) x " +
 		"subject_token_type (refresh / access / id token, each with live material) x actor token (none / access / refresh) x audience and resource lists; token_type_hint on introspection. " +
 		"About half of the cases add a HISTORY in front of that request: a generated registration for the other client (any auth method / grants; its key optionally registered under the SAME kid as the named client's, different key), " +
 		"a prelude of 0-3 earlier requests (either client x 11 endpoint/grant targets x any presentation, 60% the right one) on the same provider instance or on a SECOND provider instance (either router) of the same process whose storage " +
 		"holds an alternate registration of the same client ids (other secrets, other keys under the same kids, optionally another auth method), and a registration change on the provider under test between prelude and test " +
 		"(alternate registration replaced by the current one = secret rotated / key replaced under its kid / method changed; client deleted; client registered only now); with a prelude the presentation under test is re-drawn half of the time " +
-		"from the confusion family (no / partial credentials, the credential of the other registration of the same id, the other client's secret, an assertion naming the other client). Every prelude request is judged by the same oracle " +
+		"from the confusion family (no / partial credentials, the credential of the other registration of the same id, the other client's secret, an assertion naming the other client). A prelude request may itself suffer one of the storage faults / context deaths above (one in eight), and - before a registration change - present the credential of the registration to come (right only later). Every prelude request is judged by the same oracle " +
 		"against the registration in force at its time on its provider; the request under test against the registration in force at its time. " +
 		"The caller's standing (authenticated as registered, grant registered and enabled) and the client for whom honouring the material would be acting (its owner) are judged separately: material of a client the request does not authenticate must never be honoured " +
 		"(no tokens, no active:true, no revocation), whoever the caller is; the subject of an assertion that a lax subject check lets through names a client exactly as a client_id riding along does - " +
